@@ -190,6 +190,15 @@ Laws(cc, val) ==
                          /\ ConjDual(val) = AMul(T, ConjDual(x), ConjDual(y))
                          /\ Conj(T, val) = AMul(T, Conj(T, y), Conj(T, x))
                          /\ Conj(T, x) = ConjQuat(ConjDual(x))
+  \* anti-commutative dual complex numbers: (p + q e)^n = p^n + ((p^n - conj(p)^n)/(p - conj(p))) q e, the
+  \* identity behind f(p + q e) = f(p) + ((f(p) - f(conj p))/(p - conj p)) q e used by DualFun.tla
+  /\ (cc.op = "Mul" /\ T = "dcmplx" /\ x[2] # Zero) =>
+       \A n \in 2..3 :
+         LET pn == SubSeq(APow(T, x, n), 1, 2)
+             num == <<Zero, RScale(2, pn[2])>>                 \* p^n - conj(p^n) = 2 i Im(p^n)
+             den == <<Zero, RScale(2, x[2])>>                  \* p - conj(p)
+             q == SubSeq(x, 3, 4) IN
+         SubSeq(APow(T, x, n), 3, 4) = CMulQ(CMulQ(num, CInv(den)), q)
   /\ cc.op = "Inv" => /\ AMul(T, x, val) = OneOf(T)
                       /\ AMul(T, val, x) = OneOf(T)
   /\ cc.op = "PowReal" => APow(T, x, (cc.j % 5) + 1) = AMul(T, val, x)
